@@ -481,6 +481,12 @@ func apiJobs(tier string) []Job {
 		params := append(append(append([]int{0}, ringParams(big8)...), ringParams(holeTri)...), ringParams(b)...)
 		out = append(out, Job{Pkg: "geometry", Harness: "H_API_PolyPolyHole", Params: params, Timeout: 120, Scale: true, Contracts: c, NoCover: i > 0})
 	}
+	// a bar-shaped hole against rectangles that can cross it like a plus sign (no vertex of either inside the other)
+	holeBar := []ipt{{3, 1}, {5, 1}, {5, 7}, {3, 7}}
+	for _, b := range [][]ipt{{{0, 0}, {4, 0}, {4, 2}, {0, 2}}, {{0, 0}, {1, 0}, {1, 1}, {0, 1}}, {{0, 0}, {6, 0}, {6, 7}, {0, 7}}} {
+		params := append(append(append([]int{0}, ringParams(big8)...), ringParams(holeBar)...), ringParams(b)...)
+		out = append(out, Job{Pkg: "geometry", Harness: "H_API_PolyPolyHole", Params: params, Timeout: 120, Scale: true, Contracts: c, NoCover: true})
+	}
 	// two holes against a polygon with a hole (axis-aligned rectangles, general position), both hole orders
 	for order := 0; order <= 1; order++ {
 		out = append(out, Job{Pkg: "geometry", Harness: "H_API_HolesRect", Params: []int{order, 20, 12, 3, 4, 5, 6, 13, 4, 15, 6, 18, 10, 11, 2, 15, 6}, Timeout: 120, Scale: true, Contracts: []string{fnRaycast, fnSegSeg}, NoCover: order > 0})
@@ -623,7 +629,7 @@ func init() {
 func init() {
 	propMeta["C10"] = PropMeta{
 		Bounds: map[string]interface{}{
-			"quick":    "MultiPoint / MultiLineString / MultiPolygon / GeometryCollection / FeatureCollection with 0..3 fixed children (empties, duplicates, a nested collection, mixed kinds) x probe objects Point / LineString / Polygon / Rect / GeometryCollection (with an empty part in the middle, last or first) under ALL real translations x child-index threshold 0, 1, 2, 3 (off, always, exact count, count+1); child search with nondeterministic stop, for the probe's rectangle and for an ARBITRARY query rectangle; tidwall/rtree executed from its SSA",
+			"quick":    "MultiPoint / MultiLineString / MultiPolygon / GeometryCollection / FeatureCollection with 0..3 fixed children (empties, duplicates, a nested collection, mixed kinds) x probe objects Point / LineString / Polygon / Rect / GeometryCollection (with an empty part in the middle, last or first) and a rectangle and a triangle large enough to contain the whole collection, under ALL real translations x child-index threshold 0, 1, 2, 3 (off, always, exact count, count+1); child search with nondeterministic stop, for the probe's rectangle and for an ARBITRARY query rectangle; tidwall/rtree executed from its SSA",
 			"thorough": "same",
 		},
 		Outside:     []string{"children with symbolic coordinates (children are fixed shapes; the probe moves)", "more than 3 children, so the child R-tree is a single leaf", "Circle children"},
@@ -645,6 +651,12 @@ func init() {
 							continue
 						}
 						out = append(out, Job{Pkg: "geojson", Harness: "H_Coll", Params: []int{ctype, cfg, pk, idx}, Timeout: 120, Scale: true, Contracts: c, NoCover: pk+idx > 0})
+					}
+				}
+				// probes large enough to contain the whole collection (within can be true with empties present)
+				for _, pk := range []int{7, 8} {
+					for idx := 0; idx <= 3; idx++ {
+						out = append(out, Job{Pkg: "geojson", Harness: "H_Coll", Params: []int{ctype, cfg, pk, idx}, Timeout: 120, Scale: true, Contracts: c, NoCover: true})
 					}
 				}
 				// child search with an arbitrary query rectangle (it may cover the whole collection, or be degenerate)
@@ -833,7 +845,7 @@ func init() {
 func init() {
 	propMeta["C12"] = PropMeta{
 		Bounds: map[string]interface{}{
-			"quick":    "one operand a concrete simple ring (6 curated shapes incl. concave ones, both index kinds on two of them), the other a fully symbolic two-point line (ALL real coordinates): intersects / contains-point / contains-line (outside the C03 contact classes) are unchanged by translation with an ARBITRARY real offset (also through Move, for closed and unclosed encodings), scaling by 2 and 1/2, reflection in either axis and across the diagonal, half turn; and by re-encoding the ring: every start vertex, both directions, closing vertex kept or dropped; line reversal",
+			"quick":    "one operand a concrete simple ring (6 curated shapes incl. concave ones, two of them also traversed clockwise, both index kinds on two of them), the other a fully symbolic two-point line (ALL real coordinates): intersects / contains-point / contains-line (outside the C03 contact classes) are unchanged by translation with an ARBITRARY real offset (also through Move, for closed and unclosed encodings), scaling by 2 and 1/2, reflection in either axis and across the diagonal, half turn; and by re-encoding the ring: every start vertex, both directions, closing vertex kept or dropped; line reversal",
 			"thorough": "adds every simple lattice triangle on [0,2]^2 for the transformations",
 		},
 		Outside:     []string{"both operands symbolic", "contains-line in boundary-contact configurations (C03 known findings: the answer can be wrong there and then depends on the encoding)", "scaling by other powers of two (the code is homogeneous; only 2 and 1/2 are executed)", "polygon-polygon pairs"},
@@ -844,11 +856,15 @@ func init() {
 		out := segLemmaJobs()
 		c := []string{fnRaycast, fnSegSeg}
 		shapes := append([][]ipt{}, curatedRings[:6]...)
+		shapes = append(shapes, reverseRing(curatedRings[0]), reverseRing(curatedRings[1])) // clockwise encodings too
 		if tier == "thorough" {
 			shapes = append(shapes, latticeRings(3, 2, false)...)
 		}
 		for i, r := range shapes {
 			for t := 0; t <= 6; t++ {
+				if i >= 6 && i < 8 && t != 0 && t != 3 {
+					continue // the reversed shapes: translation / Move and one reflection
+				}
 				kinds := []int{0}
 				if i < 2 && (t == 0 || t == 3) {
 					kinds = []int{0, 1, 2}
